@@ -53,7 +53,7 @@ fn datum_of(n: usize, dotted: bool) -> Datum {
 
 /// Runs one cell; returns a short description of what was computed (to keep the optimiser honest).
 fn run_cell(op: &str, builder: &str, n: usize, dotted: bool) -> String {
-    let needs_value = !matches!(op, "parse_value" | "parse_datum" | "datum_clone" | "datum_eq" | "datum_drop" | "datum_walk" | "serde_to_value" | "serde_from_map"
+    let needs_value = !matches!(op, "parse_value" | "parse_datum" | "datum_clone" | "datum_eq" | "datum_drop" | "datum_walk" | "parse_dotted_chain" | "serde_to_value" | "serde_from_map"
                                    | "serde_to_value_map" | "serde_from_str" | "serde_to_string");
     let v = if needs_value { build(builder, n, dotted) } else { Value::Null };
     match op {
@@ -122,8 +122,32 @@ fn run_cell(op: &str, builder: &str, n: usize, dotted: bool) -> String {
                     }
                 }
             }
+            // the span of the rest of the list, as reached through as_pair() (a tail Ref, not an element)
+            if let Some((first, rest)) = d.as_ref().as_pair() {
+                k += first.span().start().line() + rest.span().start().line() + rest.span().end().line();
+                if let Some((_, rest2)) = rest.as_pair() {
+                    k += rest2.span().end().column();
+                }
+            }
             let v: Value = d.into();
             format!("{} {}", k, v.is_cons())
+        }
+        "parse_dotted_chain" => {
+            // (0 . (1 . (2 . ... ()))) nests by the parser's own accounting: it must be refused by the nesting limit
+            // (or read), not recursed into without bound
+            let mut s = String::with_capacity(n * 6 + 8);
+            for i in 0..n {
+                s.push('(');
+                s.push(char::from(b'0' + (i % 10) as u8));
+                s.push_str(" . ");
+            }
+            s.push_str(if dotted { "x" } else { "()" });
+            for _ in 0..n {
+                s.push(')');
+            }
+            let a = lexpr::from_str(&s).map(|v| v.is_cons()).map_err(|e| e.to_string().len());
+            let b = lexpr::datum::from_reader(s.as_bytes()).map(|d| d.value().is_cons()).map_err(|e| e.to_string().len());
+            format!("{:?} {:?}", a, b)
         }
         "serde_to_value" => {
             let xs: Vec<u32> = (0..n as u32).collect();
